@@ -512,6 +512,9 @@ func (g *rig) apply(in input, r *rand.Rand) outcome {
 				panic(err)
 			}
 			h.Padding, h.PaddingSize = false, 0
+			if in.Shape%6 != 5 {
+				_ = h.SetExtension(1, []byte{byte(in.K >> 8), byte(in.K)})
+			}
 			n, err := g.writer.Write(h, make([]byte, in.PayLen), interceptor.Attributes{})
 			o.N = n
 			if err != nil {
@@ -527,7 +530,7 @@ func (g *rig) apply(in input, r *rand.Rand) outcome {
 	}
 }
 
-type report struct {
+type finding struct {
 	K      int64  `json:"k"`
 	Kind   string `json:"kind"`   // panic | hang | more-bytes | probe-failed
 	Detail string `json:"detail"`
@@ -544,11 +547,11 @@ func worker(name string, seed int64, n, from int64) {
 	}
 	g, err := newRig(*t)
 	if err != nil {
-		fmt.Printf("R %s\n", mustJSON(report{Kind: "construct", Detail: err.Error()}))
+		fmt.Printf("R %s\n", mustJSON(finding{Kind: "construct", Detail: err.Error()}))
 		os.Exit(0)
 	}
 	out := bufio.NewWriter(os.Stdout)
-	emit := func(rep report) {
+	emit := func(rep finding) {
 		fmt.Fprintf(out, "R %s\n", mustJSON(rep))
 		out.Flush()
 	}
@@ -566,12 +569,12 @@ func worker(name string, seed int64, n, from int64) {
 		o := g.apply(in, r)
 		switch {
 		case o.Panic != "":
-			emit(report{K: k, Kind: "panic", Detail: o.Panic, In: in})
+			emit(finding{K: k, Kind: "panic", Detail: o.Panic, In: in})
 		case o.Hang:
-			emit(report{K: k, Kind: "hang", Detail: "call did not return within 3s", In: in})
+			emit(finding{K: k, Kind: "hang", Detail: "call did not return within 3s", In: in})
 			os.Exit(0)
 		case in.Path != "rtp-write" && o.N > o.Given:
-			emit(report{K: k, Kind: "more-bytes", Detail: fmt.Sprintf("reported %d bytes, was given %d", o.N, o.Given), In: in})
+			emit(finding{K: k, Kind: "more-bytes", Detail: fmt.Sprintf("reported %d bytes, was given %d", o.N, o.Given), In: in})
 		}
 		// probe: a well-formed packet on the same path must still be processed
 		probe := input{Path: in.Path, Kind: "probe", K: k, BufLen: 1500, PayLen: 100}
@@ -584,14 +587,14 @@ func worker(name string, seed int64, n, from int64) {
 		po := g.apply(probe, r)
 		switch {
 		case po.Panic != "":
-			emit(report{K: k, Kind: "panic", Detail: "probe after input: " + po.Panic, In: in})
+			emit(finding{K: k, Kind: "panic", Detail: "probe after input: " + po.Panic, In: in})
 		case po.Hang:
-			emit(report{K: k, Kind: "hang", Detail: "probe after input did not return", In: in})
+			emit(finding{K: k, Kind: "hang", Detail: "probe after input did not return", In: in})
 			os.Exit(0)
 		case po.Err != "" && !allowedProbeErr(name, po.Err):
-			emit(report{K: k, Kind: "probe-failed", Detail: po.Err, In: in})
+			emit(finding{K: k, Kind: "probe-failed", Detail: po.Err, In: in})
 		case in.Path != "rtp-write" && po.Err == "" && po.N != po.Given:
-			emit(report{K: k, Kind: "probe-failed", Detail: fmt.Sprintf("probe returned %d bytes of %d", po.N, po.Given), In: in})
+			emit(finding{K: k, Kind: "probe-failed", Detail: fmt.Sprintf("probe returned %d bytes of %d", po.N, po.Given), In: in})
 		}
 		if k%64 == 63 {
 			time.Sleep(3 * time.Millisecond) // let tickers and pacers run
@@ -603,7 +606,7 @@ func worker(name string, seed int64, n, from int64) {
 	select {
 	case <-done:
 	case <-time.After(3 * time.Second):
-		emit(report{K: n, Kind: "hang", Detail: "Close did not return within 3s"})
+		emit(finding{K: n, Kind: "hang", Detail: "Close did not return within 3s"})
 	}
 	fmt.Fprintf(out, "H %s\n", mustJSON(hist))
 	fmt.Fprintf(out, "D\n")
@@ -637,7 +640,7 @@ type fuzzCase struct {
 	Target  string         `json:"target"`
 	Seed    int64          `json:"seed"`
 	N       int64          `json:"n"`
-	Reports []report       `json:"reports"`
+	Reports []finding       `json:"reports"`
 	Crashes int            `json:"crashes"`
 	Hist    map[string]int `json:"hist"`
 }
@@ -666,7 +669,7 @@ func runTarget(self, name string, seed, n int64) fuzzCase {
 				fmt.Sscan(parts[1], &lastK)
 				_ = json.Unmarshal([]byte(parts[2]), &last)
 			case strings.HasPrefix(line, "R "):
-				var rep report
+				var rep finding
 				_ = json.Unmarshal([]byte(line[2:]), &rep)
 				c.Reports = append(c.Reports, rep)
 				if rep.Kind == "hang" {
@@ -697,7 +700,7 @@ func runTarget(self, name string, seed, n int64) fuzzCase {
 		if len(detail) > 600 {
 			detail = detail[:600]
 		}
-		c.Reports = append(c.Reports, report{K: lastK, Kind: "process-crash", Detail: fmt.Sprintf("%v: %s", err, strings.TrimSpace(detail)), In: last})
+		c.Reports = append(c.Reports, finding{K: lastK, Kind: "process-crash", Detail: fmt.Sprintf("%v: %s", err, strings.TrimSpace(detail)), In: last})
 		from = lastK + 1
 	}
 
@@ -722,7 +725,7 @@ func main() {
 	var fails []cq.ImplFailure
 	fz := &cq.Set{Name: "c02fuzz", Import: "IV.Check.C02Check", CaseType: "fuzz_case", Checks: []string{"fuzz_spec_failures"}}
 	sz := &cq.Set{Name: "c02size", Import: "IV.Check.C02Check", CaseType: "size_case", Checks: []string{"size_mismatches", "size_spec_failures"}}
-	n := int64(o.Scale(1500, 60000))
+	n := int64(o.Scale(20000, 400000))
 	seed := o.Seed
 	ts := targets()
 	if o.Replay != "" {
@@ -771,14 +774,20 @@ func main() {
 		seen := map[string]bool{}
 		for _, rep := range c.Reports {
 			key := rep.Kind + "|" + rep.In.Path + "|" + rep.In.Kind
+			kind := c.Target + ":" + rep.Kind + ":" + rep.In.Path + ":" + rep.In.Kind
+			if rep.Kind == "process-crash" {
+				// the goroutine dies some time after the offending input: name the crash, not the last input
+				key = rep.Kind
+				kind = c.Target + ":process-crash"
+			}
 			if seen[key] {
 				continue
 			}
 			seen[key] = true
 			fails = append(fails, cq.ImplFailure{
-				Kind:   c.Target + ":" + rep.Kind + ":" + rep.In.Path + ":" + rep.In.Kind,
+				Kind:   kind,
 				Detail: rep.Detail,
-				Case:   map[string]interface{}{"Target": c.Target, "Seed": c.Seed, "N": c.N, "k": rep.K, "in": rep.In},
+				Case:   map[string]interface{}{"target": c.Target, "seed": c.Seed, "n": rep.K + 1, "k": rep.K, "in": rep.In},
 			})
 		}
 	}
